@@ -1,9 +1,10 @@
 """Deductive contracts on small functions that carry parts of C10, C11, C13, C17, C18."""
-from pyvc.api import clause, contract, implies, old, opaque
+from pyvc.api import clause, contract, implies, old, opaque, shaped
 import griffe  # noqa: F401
 import safeds_stubgen.api_analyzer._types as sds_types  # noqa: F401
 from safeds_stubgen.docstring_parsing._docstring_parser import DocstringParser  # noqa: F401
 import pathlib  # noqa: F401
+from safeds_stubgen.api_analyzer._api import API  # noqa: F401
 from safeds_stubgen.stubs_generator._helper import NamingConvention  # noqa: F401
 from safeds_stubgen.api_analyzer import TypeSourcePreference, TypeSourceWarning  # noqa: F401
 from safeds_stubgen.docstring_parsing import DocstringStyle  # noqa: F401
@@ -423,10 +424,85 @@ class create_outside_package_class:
 _CLI = "safeds_stubgen.api_analyzer.cli._cli:"
 
 
-@contract("safeds_stubgen.api_analyzer._get_api:get_api", props=["C15"], verify=False)
-class get_api_assumed:
-    """Assumed here (its clauses are the bounded contract get_api_c): an API model, no effect on the caller's objects."""
+_GA = "safeds_stubgen.api_analyzer._get_api:"
+_PM = "safeds_stubgen.api_analyzer._package_metadata:"
+
+
+@contract(_GA + "_get_nearest_init_dirs", props=["C15"], verify=False)
+class nearest_init_dirs_assumed:
     modifies = []
+
+
+@contract(_GA + "_get_mypy_build", props=["C15"], verify=False)
+class mypy_build_assumed:
+    modifies = []
+
+
+@contract(_GA + "_get_mypy_asts", props=["C15"], verify=False)
+class mypy_asts_assumed:
+    modifies = []
+
+
+@contract(_GA + "_get_aliases", props=["C15"], verify=False)
+class aliases_assumed:
+    modifies = []
+
+
+@contract(_PM + "distribution", props=["C15"], verify=False)
+class distribution_assumed:
+    modifies = []
+
+
+@contract(_PM + "distribution_version", props=["C15"], verify=False)
+class distribution_version_assumed:
+    modifies = []
+
+
+@contract("safeds_stubgen.docstring_parsing._create_docstring_parser:create_docstring_parser", props=["C15"], verify=False)
+class create_docstring_parser_assumed:
+    modifies = []
+
+
+@contract("safeds_stubgen.api_analyzer._ast_walker:ASTWalker.walk", props=["C15"], verify=False)
+class ast_walker_walk_assumed:
+    log = False
+    modifies = []
+
+
+def SKIPPED(p, is_test_run):
+    """C15: without the flag, a file below a directory named test, tests or docs is not analysed."""
+    return (not is_test_run) and ("test" in p.parts or "tests" in p.parts or "docs" in p.parts)
+
+
+def IS_INIT(p):
+    return p.parts[-1] == "__init__.py"
+
+
+@contract(_GA + "get_api", props=["C15"])
+class get_api_filter:
+    """C15 at the function that implements it: the files handed to mypy are exactly the globbed files that are not
+    skipped (without the flag: no path segment named test, tests or docs) and are not __init__ files; the package
+    directories are the parents of the non-skipped __init__ files; the search starts at the single nearest package
+    directory, else at the given root. The rest of the analysis (mypy build, AST walk) is assumed / bounded."""
+    returns = "API"
+    params = {"root": "pathlib.Path", "docstring_style": "DocstringStyle", "is_test_run": "bool",
+              "type_source_preference": "TypeSourcePreference", "type_source_warning": "TypeSourceWarning"}
+    ghost = ["EXT"]
+    modifies = []
+    safety = False
+
+    def ensures_search_root(root, docstring_style, is_test_run, type_source_preference, type_source_warning, result):
+        inits = shaped(CALLS(EXT, "_get_nearest_init_dirs")[0][2], "list[pathlib.Path]")
+        g = CALLS(EXT, "pathlib.Path.glob")
+        return len(g) == 1 and g[0][1] == (inits[0] if len(inits) == 1 else root) and g[0][2] == "./**/*.py"
+
+    def ensures_files_handed_to_mypy(root, docstring_style, is_test_run, type_source_preference, type_source_warning, result):
+        files = shaped(CALLS(EXT, "pathlib.Path.glob")[0][3], "list[pathlib.Path]")
+        b = CALLS(EXT, "_get_mypy_build")[0]
+        a = CALLS(EXT, "_get_mypy_asts")[0]
+        return b[1] == [str(p) for p in files if not SKIPPED(p, is_test_run) and not IS_INIT(p)] \
+            and a[1] == b[2] and a[2] == b[1] \
+            and a[3] == [str(p.parent) for p in files if not SKIPPED(p, is_test_run) and IS_INIT(p)]
 
 
 @contract("safeds_stubgen.api_analyzer._api:API.to_json_file", props=["C10", "C12"])
@@ -466,7 +542,7 @@ class run_stub_generator_wiring:
               "is_test_run": "bool", "convert_identifiers": "bool", "type_source_preference": "TypeSourcePreference",
               "type_source_warning": "TypeSourceWarning"}
     ghost = ["EXT"]
-    log_calls = ["API.to_json_file"]
+    log_calls = ["API.to_json_file", "get_api"]
     modifies = []
     safety = False
 
